@@ -3,11 +3,12 @@
 # sources must leave every check at exit 0 (exit 1 = false alarm, exit 2 = the analysis does not understand the new shape).
 # UNDECIDED_OK="C05 ..." lists checks for which exit 2 (never exit 1) is the documented answer for this patch.
 S=$(mktemp -d /tmp/w2c2-refactor.XXXXXX); trap 'rm -rf "$S"' EXIT
+SNAP="$S/verif"; mkdir -p "$SNAP"; cp -r /verif/sa /verif/check /verif/known_findings.json /verif/properties.jsonl "$SNAP/"; ln -s /verif/.cache "$SNAP/.cache"
 mkdir -p "$S/repo"; (cd /repo && cp -r w2c2 wasi futex "$S/repo/")
 patch -s -p1 -d "$S/repo" < "$1" || { echo "patch does not apply"; exit 3; }
 bad=0
 for pid in C01 C02 C03 C04 C05 C06 C07 C08 C09 C10 C11 C12 C13 C14 C15 C16 C17 C18 C19 C20; do
-  VERIF_REPO="$S/repo" VERIF_EVIDENCE_DIR="$S/ev" /verif/check "$pid" --tier quick > "$S/out" 2>&1; rc=$?
+  VERIF_REPO="$S/repo" VERIF_EVIDENCE_DIR="$S/ev" "$SNAP/check" "$pid" --tier quick > "$S/out" 2>&1; rc=$?
   if [ $rc -eq 2 ] && echo " $UNDECIDED_OK " | grep -q " $pid "; then echo "== $pid exit 2 (not decided - listed as expected for this patch)"; continue; fi
   if [ $rc -ne 0 ]; then bad=$((bad+1)); echo "== $pid exit $rc"; grep -v '^VIOLATION' "$S/out" | tail -4 | cut -c1-500; fi
 done
